@@ -21,6 +21,36 @@ CHECKS = {
             "Generated-input search: an exhaustive operator x width x corner-operand grid plus seeded random expression DAGs, each judged against an independent big-integer implementation of SMT-LIB semantics, including canonicity of the returned value and short-circuit evaluation. Sampling, not proof; the grid is exhaustive within its stated bound.",
             "Trusts the harness' reference evaluator (unit-tested), proptest, rustc. Known baa-rooted defects are listed in known_findings.jsonl.",
             "DESIGN.md 5/C06"),
+    "C07": ("exploration",
+            "stateful model-based proptest: operation histories on the Interpreter vs a reference simulator",
+            "Generated systems and histories of init/set/step/get/snapshot/restore are executed on patronus::sim::Interpreter and on a reference model built on the independent evaluator; every observable expression is compared after every operation. Sampling of systems x histories, not proof.",
+            "Trusts refeval/refsim. Inputs after restore are re-synchronised by reading them back (the property promises states only).",
+            "DESIGN.md 5/C07"),
+    "C08": ("exploration",
+            "grammar-based btor2 text generator carrying its own semantics; differential oracle vs reference evaluation of the parsed system",
+            "Grammar-generated btor2 files (all supported operators, negated references, all constant forms, array init lifting, demoted states) are parsed and every output/bad/constraint/init/next is compared under sampled valuations with the file's own line-by-line semantics computed by the harness; ill-sorted variants must be rejected. Sampling, not proof.",
+            "Trusts btorgen's reading of the btor2 format (operator semantics per SMT-LIB) and refeval.",
+            "DESIGN.md 5/C08"),
+    "C09": ("exploration",
+            "proptest round-trip writer->reader with positional equivalence judged by the reference evaluator; all shipped files",
+            "Generated systems and every shipped btor2 file are serialized and parsed back into the same Context; counts, types and every function are compared positionally (identical reference or reference-evaluator-equal); names of parsed systems must survive another cycle. Sampling, not proof.",
+            "Trusts refeval; systems the writer documents as unsupported (constant array outside init, undeclared symbol) are skipped and counted.",
+            "DESIGN.md 5/C09"),
+    "C11": ("exploration",
+            "proptest over generated systems; metamorphic oracle: function-by-function reference evaluation + lock-step reference simulation",
+            "Generated systems are transformed by simplify_expressions / replace_anonymous_inputs_with_zero and compared with the original function by function under all (<= 14 bits) or sampled assignments, by 4-step lock-step reference simulation, by symbol scans and by name checks. Sampling, not proof.",
+            "Trusts refeval/refsim.",
+            "DESIGN.md 5/C11"),
+    "C17": ("exploration",
+            "proptest over generated systems x roots; syntactic closure oracle + metamorphic perturbation in the reference simulator",
+            "For every root and the three cone variants the result is checked to contain only inputs/states, to be inside the harness' own dependency closure (tightness) and to be sufficient: 16 pairs of executions agreeing on the cone and differing elsewhere give the root the same value. Sampling, not proof.",
+            "Trusts refsim and the harness' closure computation.",
+            "DESIGN.md 5/C17"),
+    "C18": ("exploration",
+            "mutation-based proptest over valid btor2 texts (generated and shipped) with panic capture and deep well-typedness check of accepted systems",
+            "1-3 line/token-level edits of valid btor2 texts and grammar-generated ill-sorted variants are fed to parse_str under catch_unwind; allowed outcomes are rejection, a system passing a deep type/scope check, or a panic naming a documented unsupported operator. Sampling, not proof. Widths beyond 2^20 bits are excluded (resource use, not decidable here).",
+            "Trusts the deep checker (own typing rules cross-checked with type_check/get_type).",
+            "DESIGN.md 5/C18"),
     "C12": ("exploration",
             "stateful model-based proptest: construction histories vs shadow structural map",
             "Histories of up to 300 Context construction calls with bulk insertions and re-issues are replayed against a shadow map structural-key <-> ExprRef; every call and periodic audits check canonicity, stability of every reference ever obtained, and the true/false constants. Sampling of histories, not proof.",
